@@ -3,6 +3,7 @@
 package zz_verif
 
 import (
+	"bytes"
 	"context"
 
 	ipfslog "berty.tech/go-ipfs-log"
@@ -342,3 +343,60 @@ func (f *foreignProvider) Sign(c context.Context, i *idp.Identity, b []byte) ([]
 	return f.inner.Sign(c, i, b)
 }
 func (f *foreignProvider) UnmarshalPublicKey([]byte) (crypto.PubKey, error) { return f.key, nil }
+
+// H_C05_rehash: a peer presents, as the head of its log, an entry that is validly signed but carries in its hash
+// field the identifier of an entry the receiving log already holds (a buggy or hostile peer: when entries are
+// handed over in memory nothing re-derives the identifier from the content). A merge only inserts identifiers the
+// log does not hold: what the log returns for every identifier it held is byte-identical afterwards, and its
+// view still contains the previous one.
+func H_C05_rehash() {
+	ids, _ := realIdentities("userA", "userB")
+	api := newMemAPI()
+	io := pickIO(api)
+	A := newLogOpt(api, ids[0], &ipfslog.LogOptions{ID: "X", IO: io})
+	const n = 3
+	var held []iface.IPFSLogEntry
+	for i := 0; i < n; i++ {
+		e, err := A.Append(ctx, []byte{'a', byte('0' + i)}, nil)
+		if err != nil {
+			panic(err)
+		}
+		held = append(held, e)
+	}
+	victim := vx.Choice("victim", n-1) // an entry that has a successor in the log (the head's object is legitimately replaced by the merged head of the same identifier)
+	F, err := entry.CreateEntryWithIO(ctx, api, ids[1], &entry.Entry{LogID: "X", Payload: []byte("forged"), Clock: entry.NewLamportClock(ids[1].PublicKey, 1)}, nil, io)
+	vx.Assert("C05", err == nil, "creating a signed entry succeeds")
+	if err != nil {
+		return
+	}
+	f := F.Copy()
+	f.SetHash(held[victim].GetHash())
+	other := newLogOpt(api, ids[1], &ipfslog.LogOptions{ID: "X", IO: io, Entries: orderedMapOf([]iface.IPFSLogEntry{f}), Heads: []iface.IPFSLogEntry{f}})
+	prev := payloadSeq(A.Values().Slice())
+	A.Join(other, -1) // accepted or refused: either way nothing the log held changes
+	for i, e := range held {
+		got, ok := A.Get(e.GetHash())
+		vx.Assert("C05", ok && got != nil, "an entry the log held is still retrievable by its hash")
+		if got != nil {
+			vx.Assert("C05", bytes.Equal(got.GetPayload(), []byte{'a', byte('0' + i)}) && bytes.Equal(got.GetSig(), e.GetSig()) && sameCids(got.GetNext(), e.GetNext()),
+				"an entry the log held is returned with identical content after a merge that offered other content under its identifier")
+		}
+	}
+	now := payloadSeq(A.Values().Slice())
+	vx.Assert("C05", containsSeq(now, prev), "the new view contains the previous view")
+	vx.Assert("C05", A.Len() >= n, "the entry count never decreases")
+	vx.Cover("rehashed-head-offered")
+}
+
+// containsSeq: prev's elements (separated as payloadSeq separates them) occur in now in the same order.
+func containsSeq(now, prev string) bool {
+	j := 0
+	for i := 0; i < len(now) && j < len(prev); i++ {
+		if now[i] == prev[j] {
+			j++
+		}
+	}
+	return j == len(prev)
+}
+
+var _ = register("H_C05_rehash", H_C05_rehash)
